@@ -871,6 +871,19 @@ def run(tier="quick"):
                             and r_ is not None and r_.get("k") == "un" and r_.get("op") == "*" and (X.strip(r_["ch"][0]) or {}).get("d") in rooted:
                         pstores.append(x)
             if not pstores:
+                # a kept word carried over in a local (word = argv[from]; ..; argv[to] = word): the same CAP obligations
+                for x in walk(f.body):
+                    if x.get("k") == "assign" and x.get("op") == "=" and not X.is_null_const(x["ch"][1]):
+                        l_, r_ = X.strip(x["ch"][0]), X.strip(x["ch"][1])
+                        if l_.get("k") == "index" and (X.strip(l_["ch"][0]) or {}).get("d") in rooted and r_ is not None and \
+                                r_.get("k") == "ref" and r_.get("rk") == "local" and r_.get("tp"):
+                            defs_ = [y for y in walk(f.body) if (y.get("k") == "assign" and y.get("op") == "=" and (X.strip(y["ch"][0]) or {}).get("d") == r_["d"])]
+                            inits_ = [(f.vardecls.get(r_["d"]) or {}).get("init")] if (f.vardecls.get(r_["d"]) or {}).get("init") is not None else []
+                            srcs_ = [y["ch"][1] for y in defs_] + inits_
+                            if srcs_ and all((X.strip(e_) or {}).get("k") in ("index", "un") and any(
+                                    z.get("k") == "ref" and z.get("d") in rooted for z in walk(e_)) for e_ in srcs_):
+                                pstores.append(x)
+            if not pstores:
                 continue
             from .. import capdrv
             from ..cap import Cap
